@@ -265,6 +265,11 @@ def _validate_params_with_signature(
     # Get list of valid parameter names and analyze signature
     params_by_name = signature.parameters
     valid_params = list(params_by_name.keys())
+    # Positional-only parameters can NOT be passed as kwargs. If given as kwarg, the key is either
+    # captured by `**kwargs`, or it's an unexpected kwarg.
+    positional_only_params = [
+        name for name, param in params_by_name.items() if param.kind == inspect.Parameter.POSITIONAL_ONLY
+    ]
 
     # Check if function accepts variable arguments (*args, **kwargs)
     has_var_positional = any(param.kind == inspect.Parameter.VAR_POSITIONAL for param in params_by_name.values())
@@ -307,7 +312,8 @@ def _validate_params_with_signature(
                 # Check if this parameter was already provided as a kwarg
                 if param_name in used_param_names:
                     raise TypeError(f"got multiple values for argument '{param_name}'")
-                used_param_names.add(param_name)
+                if param_name not in positional_only_params:
+                    used_param_names.add(param_name)
 
             validated_args.append(param.value)
             next_positional_index += 1
@@ -320,7 +326,7 @@ def _validate_params_with_signature(
                 raise TypeError(f"got multiple values for argument '{param.key}'")
 
             # Validate kwarg names if the function doesn't accept **kwargs
-            if not has_var_keyword and param.key not in valid_params:
+            if not has_var_keyword and (param.key not in valid_params or param.key in positional_only_params):
                 raise TypeError(f"got an unexpected keyword argument '{param.key}'")
 
             validated_kwargs[param.key] = param.value
@@ -334,11 +340,17 @@ def _validate_params_with_signature(
         validated_kwargs.update(extra_kwargs)
 
     # Check for missing required arguments and apply defaults
-    for param_name, signature_param in params_by_name.items():
+    for param_index, (param_name, signature_param) in enumerate(params_by_name.items()):
+        if signature_param.kind == inspect.Parameter.POSITIONAL_ONLY:
+            # Positional-only params are never passed as kwargs, so we leave the defaults up to Python.
+            if param_index >= len(validated_args) and signature_param.default == inspect.Parameter.empty:
+                raise TypeError(f"missing a required argument: '{param_name}'")
+            continue
+
         if param_name in used_param_names or param_name in validated_kwargs:
             continue
 
-        if signature_param.kind in (inspect.Parameter.POSITIONAL_ONLY, inspect.Parameter.POSITIONAL_OR_KEYWORD):
+        if signature_param.kind == inspect.Parameter.POSITIONAL_OR_KEYWORD:
             if signature_param.default == inspect.Parameter.empty:
                 raise TypeError(f"missing a required argument: '{param_name}'")
             elif len(validated_args) <= next_positional_index:
@@ -380,6 +392,9 @@ def _validate_params_with_code(
     skip_params = 2
     param_names = param_names[skip_params:]
     positional_count = max(0, positional_count - skip_params)
+    # Positional-only parameters can NOT be passed as kwargs. If given as kwarg, the key is either
+    # captured by `**kwargs`, or it's an unexpected kwarg.
+    positional_only_names = param_names[: max(0, code.co_posonlyargcount - skip_params)]
 
     # Calculate required counts
     num_defaults = len(defaults)
@@ -410,7 +425,8 @@ def _validate_params_with_code(
                 param_name = param_names[next_positional_index]
                 if param_name in used_param_names:
                     raise TypeError(f"got multiple values for argument '{param_name}'")
-                used_param_names.add(param_name)
+                if param_name not in positional_only_names:
+                    used_param_names.add(param_name)
 
             validated_args.append(param.value)
             next_positional_index += 1
@@ -423,8 +439,11 @@ def _validate_params_with_code(
                 raise TypeError(f"got multiple values for argument '{param.key}'")
 
             # Validate kwarg names
-            is_valid_kwarg = param.key in param_names[: positional_count + kwonly_count] or (  # Regular param
-                has_var_keyword and param.key not in param_names
+            is_valid_kwarg = (
+                param.key in param_names[: positional_count + kwonly_count]  # Regular param
+                and param.key not in positional_only_names
+            ) or (
+                has_var_keyword and (param.key not in param_names or param.key in positional_only_names)
             )  # **kwargs param
             if not is_valid_kwarg:
                 raise TypeError(f"got an unexpected keyword argument '{param.key}'")
@@ -441,6 +460,12 @@ def _validate_params_with_code(
 
     # Check for missing required arguments and apply defaults
     for i, param_name in enumerate(param_names):
+        if i < len(positional_only_names):
+            # Positional-only params are never passed as kwargs, so we leave the defaults up to Python.
+            if i >= len(validated_args) and i < required_positional:
+                raise TypeError(f"missing a required argument: '{param_name}'")
+            continue
+
         if param_name in used_param_names or param_name in validated_kwargs:
             continue
 
